@@ -148,13 +148,13 @@ def configCmd (ws : List String) : Option String :=
     match ofHex hx with
     | some b => some (showOpenRes (Fjall.Version.checkVersion b))
     | none => some "bad-op"
-  | "lock" :: marker :: j0 :: ops =>
-    -- marker: hex or "absent"; j0: 0/1 whether 0.jnl exists; ops: o(pen) c(lone) d(rop)
+  | "lock" :: marker :: j0 :: ksf :: ops =>
+    -- marker: hex or "absent"; j0: 0/1 whether 0.jnl exists; ksf: 0/1 whether the keyspaces folder exists; ops: o(pen) c(lone) d(rop)
     let m := if marker = "absent" then some none else (ofHex marker).map some
     match m with
     | none => some "bad-op"
     | some m =>
-      let d0 : Fjall.Version.Dir := { marker := m, hasJournal0 := j0 = "1", mutations := 0, holders := 0 }
+      let d0 : Fjall.Version.Dir := { marker := m, hasJournal0 := j0 = "1", hasKeyspaces := ksf = "1", mutations := 0, holders := 0 }
       let (_, outs) := ops.foldl (fun (acc : Fjall.Version.Dir × List String) op =>
         let (d, outs) := acc
         let hop := if op = "o" then Fjall.Version.HOp.open else if op = "c" then .clone else .drop
